@@ -15,11 +15,20 @@ UMAX = {"u8": "Rs.U8_MAX", "u16": "Rs.U16_MAX", "u32": "Rs.U32_MAX", "u64": "Rs.
 UBITS = {"u8": 8, "u16": 16, "u32": 32, "u64": 64, "u128": 128, "usize": 64}
 IBITS = {"i32": 32, "i64": 64}
 IRNG = {"i32": "Rs.I32_MIN Rs.I32_MAX", "i64": "Rs.I64_MIN Rs.I64_MAX"}
-LOG_MACROS = ("trace", "debug", "info", "warn", "error", "log")
+LOG_MACROS = ("trace", "debug", "info", "warn", "error", "log",
+              # vls-core: `dbgvals!` (util/debug_utils.rs: debug!-prints its arguments) and `policy_log!` (policy/error.rs:
+              # error!/warn! at the level the filter gives the tag) only log
+              "dbgvals", "policy_log",
+              # util/debug_utils.rs: trace!-prints the enforcement state and the chain state
+              "trace_enforcement_state")
 LEAN_KW = set("""end from at open type instance where then else do let fun match with if in have show by local prefix
 variable universe theorem def namespace section structure class inductive mutual deriving import export private
 protected partial unsafe macro syntax notation infix return for break continue try catch finally mut using extends
 calc Type Prop Sort abbrev example axiom opaque set_option attribute matches""".split())
+
+STATUS_ERRS = {"Status::internal": "Status::internal", "internal_error": "Status::internal",
+               "Status::invalid_argument": "Status::invalid_argument", "invalid_argument": "Status::invalid_argument",
+               "Status::failed_precondition": "Status::failed_precondition", "failed_precondition": "Status::failed_precondition"}
 
 INTLIT = ("intlit",)
 
@@ -163,9 +172,11 @@ class Unit:
         self.fi = FileIndex(rel, text)
         self.struct_src = {n: rel for n in self.fi.structs}
         self.fn_src = {}            # (impl, name) -> FileIndex of another file (see fn_files)
+        self.src_texts = [self.fi.src]   # every source text structures / functions are taken from
         cache = {}
         def index_of(r):
-            if r not in cache: cache[r] = FileIndex(r, load(r))
+            if r not in cache:
+                cache[r] = FileIndex(r, load(r)); self.src_texts.append(cache[r].src)
             return cache[r]
         if views:
             # trusted *views* of library types: struct declarations (Rust syntax) listing the fields the translated
@@ -756,6 +767,11 @@ class FnTranslator:
             return '("%s " ++ toString %s)' % (self.u.error_ctors[e[1][1][-1]], term)
         if e[0] == "mcall" and e[2] == "into":
             return self.err_tag(e[1], env, pre)
+        # util/status.rs: `Status::internal(msg)`, `invalid_argument(msg)`, … -- the error class is the constructor, the
+        # message is dropped
+        if e[0] == "call" and e[1][0] == "path" and "::".join(e[1][1]) in STATUS_ERRS:
+            self.dropped.append("message of %s(..)" % "::".join(e[1][1]))
+            return '"%s"' % STATUS_ERRS["::".join(e[1][1])]
         raise RsError("error value outside the subset")
 
     def compat(self, a, b):
@@ -1084,7 +1100,8 @@ class FnTranslator:
             term, t = self.expr(("path", [a]), env, pre, None)
             terms.append(term if " " not in term or term.startswith("(") else "(" + term + ")")
             tys.append(t)
-        lty = " → ".join([self.u.lt(t, False) for t in tys] + [self.u.lt(rt, False)])
+        u = self.u
+        lty = LazyTy(u, tys, rt, None)
         for t in tys + [rt]:
             self.u.opaques_of(t, self.ext_opaques)
         ident = "ext_let_" + name
@@ -2179,8 +2196,29 @@ class FnTranslator:
         return a, at, b, bt
 
     def note_eq(self, t):
+        self.eq_all_fields(t, set())
         for o in self.u.opaques_of(t, []):
             if o not in self.needs_deq: self.needs_deq.append(o)
+
+    def eq_all_fields(self, t, seen):
+        """`==` / `!=` on a struct is the derived `PartialEq`: it compares EVERY field, so every field becomes part of
+        the generated structure (whose `DecidableEq` is then the same relation).  Fail closed on a field whose type
+        is outside the subset and on a hand-written `impl PartialEq`."""
+        k = t[0]
+        if k == "struct":
+            if t[1] in seen: return
+            seen.add(t[1])
+            import re as _re
+            for txt in self.u.src_texts:
+                if _re.search(r"impl(\s*<[^>]*>)?\s+(PartialEq|Eq)(\s*<[^>]*>)?\s+for\s+%s\b" % _re.escape(t[1]), txt) \
+                        and _re.search(r"impl(\s*<[^>]*>)?\s+PartialEq(\s*<[^>]*>)?\s+for\s+%s\b" % _re.escape(t[1]), txt):
+                    raise RsError("== on %s, which has a hand-written impl PartialEq" % t[1])
+            for f, _ in self.u.fi.structs[t[1]]:
+                self.eq_all_fields(self.u.struct_field(t[1], f), seen)
+        elif k in ("opt", "vec", "iter"): self.eq_all_fields(t[1], seen)
+        elif k == "map": self.eq_all_fields(t[2], seen)
+        elif k == "tuple":
+            for x in t[1]: self.eq_all_fields(x, seen)
 
     def cast(self, e, env, pre):
         to = self.u.resolve(e[2], self.impl)
@@ -2246,7 +2284,8 @@ class FnTranslator:
             if c[0] == "closure" and len(c[1]) == 1 and self.is_result:
                 body = c[2]
                 if body[0] == "block" and not body[1] and body[2] is not None: body = body[2]
-                if body[0] == "call" and body[1][0] == "path" and body[1][1][-1] == "policy_error":
+                if body[0] == "call" and body[1][0] == "path" and \
+                        (body[1][1][-1] == "policy_error" or "::".join(body[1][1]) in STATUS_ERRS):
                     pre2 = []
                     tag = self.err_tag(body, env, pre2)
                     if pre2: raise RsError("error value with effects")
@@ -2574,6 +2613,8 @@ class FnTranslator:
         wr = getattr(self, "wr_of", {}).get(id(e), False)
         if recv == ("path", ["self"]) and ("self." + m) in self.u.externals:
             return self.call_external("self." + m, args, env, pre)
+        if recv == ("path", ["self"]) and self.impl and "%s.%s" % (self.impl, m) in self.u.externals and "self" in env:
+            return self.call_external("%s.%s" % (self.impl, m), [recv] + list(args), env, pre)
         # methods of the translated impl on self
         if recv == ("path", ["self"]) and self.impl and (self.impl, m) in self.u.fi.fns and m not in ("clone",) \
                 and (self.impl, m) not in self.u.fi.decl_only:
@@ -2660,6 +2701,17 @@ class FnTranslator:
             pre.append(("let", v, base))
             self.place_set(recv, "none", env, pre)
             return v, bt, "val"
+        if recv[0] in ("field", "mcall"):
+            # `self.inner.method(..)` / `self.validator().method(..)` with a receiver of an opaque type
+            # (`Arc<dyn Trait>`): a method external on it
+            pre0, n0 = [], self.n      # (a probe of the receiver's type: must not consume fresh names)
+            try:
+                _, bt0 = self.expr(recv, env, pre0, None)
+            except RsError:
+                bt0 = ("unknown",)
+            self.n = n0
+            if bt0[0] in ("struct", "opaque") and "%s.%s" % (bt0[1], m) in self.u.externals:
+                return self.call_external("%s.%s" % (bt0[1], m), [recv] + list(args), env, pre)
         base, bt = self.expr(recv, env, pre, None)
         k = bt[0]
         if m == "lock" and not args and k not in ("opaque", "iter", "viter", "lockres"):
